@@ -279,3 +279,73 @@ def mixed_pkg(rng, errors=0):
         n = gn.pop(rng.below(len(gn)))
         files.append({"name": n, "src": "package main\n\n" + "\n".join(body)})
     return files
+
+
+# ----------------------------------------------------------------------------- mutation of sources (C06, C07)
+
+import re
+
+_TOK = re.compile(r'"(?:[^"\\\n]|\\.)*"|`[^`]*`|\'(?:[^\'\\\n]|\\.)*\'|[A-Za-z_][A-Za-z_0-9]*|\d+(?:\.\d+)?|<-|:=|==|!=|<=|>=|&&|\|\||\+\+|--|=>|\.\.\.|[^\sA-Za-z_0-9]')
+KEYWORDS = ["func", "var", "const", "type", "struct", "interface", "map", "if", "else", "for", "range", "switch", "case",
+            "default", "return", "break", "continue", "defer", "go", "import", "package", "select", "chan", "fallthrough", "goto"]
+PUNCT = ["(", ")", "{", "}", "[", "]", ",", ";", ":", ".", "=", ":=", "+", "-", "*", "/", "<-", "!", "?", "=>", "&", "...", "$", "#", "@", "~", "\"", "'", "`"]
+MUT_KINDS = ["del-token", "dup-token", "swap-tokens", "ident-swap", "ident-undef", "lit-change", "insert-keyword", "insert-punct",
+             "del-line", "dup-line", "swap-lines", "truncate", "del-byte", "type-swap", "del-range"]
+
+
+def tokens(src):
+    return [(m.start(), m.end()) for m in _TOK.finditer(src)]
+
+
+def mutate(src, rng, kind=None):
+    """one structured mutation of a source text -> (mutant, kind)"""
+    kind = kind or MUT_KINDS[rng.below(len(MUT_KINDS))]
+    toks = tokens(src)
+    if not toks:
+        return src + "}", "insert-punct"
+    i = rng.below(len(toks))
+    a, b = toks[i]
+    if kind == "del-token":
+        return src[:a] + src[b:], kind
+    if kind == "dup-token":
+        return src[:b] + " " + src[a:b] + src[b:], kind
+    if kind == "swap-tokens" and i + 1 < len(toks):
+        c, d = toks[i + 1]
+        return src[:a] + src[c:d] + src[b:c] + src[a:b] + src[d:], kind
+    idents = [(x, y) for (x, y) in toks if (src[x].isalpha() or src[x] == "_") and src[x:y] not in KEYWORDS]
+    if kind == "ident-swap" and len(idents) >= 2:
+        x, y = idents[rng.below(len(idents))]
+        u, v = idents[rng.below(len(idents))]
+        return src[:x] + src[u:v] + src[y:], kind
+    if kind == "ident-undef" and idents:
+        x, y = idents[rng.below(len(idents))]
+        return src[:x] + "zz" + src[x:y] + src[y:], kind
+    if kind == "type-swap":
+        tys = [(x, y) for (x, y) in toks if src[x:y] in ("int", "string", "bool", "error", "float64", "any")]
+        if tys:
+            x, y = tys[rng.below(len(tys))]
+            return src[:x] + rng.choice(["int", "string", "bool", "[]int", "float64", "any", "*int", "func()"]) + src[y:], kind
+    lits = [(x, y) for (x, y) in toks if src[x].isdigit() or src[x] in "\"'`"]
+    if kind == "lit-change" and lits:
+        x, y = lits[rng.below(len(lits))]
+        return src[:x] + rng.choice(["0", "-1", "\"s\"", "1.5", "nil", "true", "99999999999999999999", "'c'", "\"${x}\"", "1r", "[]", "{}"]) + src[y:], kind
+    if kind == "insert-keyword":
+        return src[:a] + rng.choice(KEYWORDS) + " " + src[a:], kind
+    if kind == "insert-punct":
+        return src[:a] + rng.choice(PUNCT) + src[a:], kind
+    lines = src.split("\n")
+    j = rng.below(len(lines))
+    if kind == "del-line":
+        return "\n".join(lines[:j] + lines[j + 1:]), kind
+    if kind == "dup-line":
+        return "\n".join(lines[:j + 1] + lines[j:]), kind
+    if kind == "swap-lines" and j + 1 < len(lines):
+        lines[j], lines[j + 1] = lines[j + 1], lines[j]
+        return "\n".join(lines), kind
+    if kind == "truncate":
+        return src[:a], kind
+    if kind == "del-range" and i + 1 < len(toks):
+        k = min(len(toks) - 1, i + 1 + rng.below(6))
+        return src[:a] + src[toks[k][1]:], kind
+    p = rng.below(len(src)) if src else 0
+    return src[:p] + src[p + 1:], "del-byte"
